@@ -220,6 +220,7 @@ class World:
         self.blocked = False
         self.ge_count = 0
         self.ctx_stack = []
+        self.pool = {}       # template -> event objects made ahead of time (scenarios marked `prepared`)
         self.cur_ev = []     # events being dispatched (innermost last); read by handlers declared without `event`
         self.side = {'expect': [], 'firectx': {}, 'parent': {}, 'ftime': {}, 'timer_ev': [], 'wbound': {},
                      'treechk': [], 'optimes': [], 'gens': {}, 'callstart': {}, 'stops': [], 'tfires': [],
@@ -278,6 +279,19 @@ class World:
 
     # ---- building ---------------------------------------------------------------------
     def mk_event(self, ti):
+        """the event object for a fire / call act.  In a scenario marked `prepared` the objects are made ahead of time, in
+        batches over all templates, and handed out newest first: users do write `a = foo(); b = foo(); fire(b); fire(a)` or
+        fire an event they prepared earlier, so the order in which event objects were *created* differs from the order in
+        which they are *fired* (which is the only order the properties speak of)"""
+        if not self.sc.get('prepared'):
+            return self._new_event(ti)
+        pool = self.pool.setdefault(ti, [])
+        if not pool:
+            for tj in range(len(self.sc['tmpls'])):
+                self.pool.setdefault(tj, []).extend(self._new_event(tj) for _ in range(3))
+        return pool.pop()
+
+    def _new_event(self, ti):
         from circuits.core.events import Event
         t = self.sc['tmpls'][ti]
         ev = Event.create(py_name(t['name']))
